@@ -2,5 +2,7 @@ SPECIFICATION Spec
 CONSTANTS
   CBug = "none"
   NameOrder <- NameOrderDef
+  AcrhOK <- AcrhOKUnused
+  AcrhEcho <- AcrhEchoUnused
 INVARIANT Final
 CHECK_DEADLOCK FALSE
